@@ -40,3 +40,21 @@ def hitzerDenom [Add β] [Mul β] [Neg β] [Sub β] [One β] [Zero β] (c : Cfg)
   (hitzerNum c x).map fun num => scalarPart (sp c x num)
 
 end Kingdon
+
+namespace Kingdon
+variable {β : Type}
+
+/-- unscaled wedge powers `x, x^x, x^x^x, ...` as `codegen_outerexp` builds them (codegen.py:411-431): the loop
+    runs while `j <= d` and stops at the first power that has no non-zero coefficient left (`if Wj: ... else: break`);
+    `isZero` is the truthiness test of a coefficient.  The code divides the j-th power by j at every step, i.e. by j!
+    in total; the model keeps the integer numerators. -/
+def wedgePowers [Add β] [Mul β] [Neg β] (c : Cfg) (isZero : β → Bool) (x : MV β) : List (MV β) :=
+  let rec go (fuel : Nat) (prev : MV β) (acc : List (MV β)) : List (MV β) :=
+    match fuel with
+    | 0 => acc.reverse
+    | fuel + 1 =>
+      let w := (op c prev x).filter fun kv => !isZero kv.2
+      if w.isEmpty then acc.reverse else go fuel w (w :: acc)
+  go (c.d - 1) x [x]
+
+end Kingdon
